@@ -428,12 +428,16 @@ func bufReader(r *core.Rand, c *core.C, text string) *bufio.Reader {
 // ---- per-kind generators ----
 
 type c10Case struct {
-	Kind string `json:"kind"`
-	Seed uint64 `json:"seed"`
+	Kind  string `json:"kind"`
+	Seed  uint64 `json:"seed"`
+	Steer []byte `json:"steer,omitempty"` // thorough tier: generator choices dictated by the fuzzer
 }
 
 func (p c10) run(c *core.C, t *core.T, cs c10Case) {
 	r := core.NewRand(cs.Seed, "c10", cs.Kind)
+	if len(cs.Steer) > 0 {
+		r = core.NewSteered(cs.Steer, "c10", cs.Kind)
+	}
 	switch cs.Kind {
 	case "dsc":
 		p.dsc(c, t, r)
@@ -1361,7 +1365,7 @@ func (p c10) best(c *core.C, r *core.Rand) {
 func (p c10) RunBatch(t *core.T, b core.Batch) {
 	r := t.Rand(b.Name, fmt.Sprint(b.Arg))
 	for i := 0; i < b.N; i++ {
-		cs := c10Case{Kind: b.Name, Seed: r.U64()}
+		cs := c10Case{Kind: b.Name, Seed: r.U64(), Steer: r.SteerRest()}
 		in, _ := json.Marshal(cs)
 		t.Case("doc", in, func(c *core.C) { p.run(c, t, cs) })
 	}
